@@ -119,10 +119,10 @@ impl Shadow {
         self.started.fetch_add(1, Ordering::SeqCst);
         if inc {
             self.fc.inc(bytes, msgs);
-            t.push((m + msgs, b + bytes));
+            t.push((m.wrapping_add(msgs), b.wrapping_add(bytes)));
         } else {
             self.fc.dec(bytes, msgs);
-            t.push((m - msgs, b - bytes));
+            t.push((m.wrapping_sub(msgs), b.wrapping_sub(bytes)));
         }
         self.completed.fetch_add(1, Ordering::SeqCst);
     }
@@ -231,7 +231,7 @@ fn make_script(rng: &mut Rng, kind: u64) -> Script {
     let mut sc = make_script_base(rng, kind);
     // scripts that are bound by the message limit alone also run with a byte limit that stands for
     // "unlimited" (beyond i64::MAX): the byte count is then below its limit whatever happens
-    if matches!(kind % 6, 0 | 2) && rng.below(3) == 0 {
+    if matches!(kind % 7, 0 | 2) && rng.below(3) == 0 {
         sc.limits.1 = *[u64::MAX, (i64::MAX as u64) + 1, u64::MAX - 1][rng.below(3) as usize..].first().unwrap();
     }
     sc
@@ -239,7 +239,19 @@ fn make_script(rng: &mut Rng, kind: u64) -> Script {
 
 fn make_script_base(rng: &mut Rng, kind: u64) -> Script {
     let waiters = 1 + rng.below(3) as usize;
-    match kind % 6 {
+    match kind % 7 {
+        6 => {
+            // releases that overtake their acquisitions: two messages are released before they were
+            // counted (the counter wraps below zero and comes back, increments and decrements
+            // commute), while the waiters are held by the byte limit; the last step frees the bytes.
+            // The true final state is (0 messages, bytes below the limit).
+            Script {
+                muts: vec![vec![(false, 0, 1), (false, 0, 1), (true, 0, 1), (true, 0, 1), (false, 60, 0)]],
+                waiters,
+                init: (0, MAX_BYTES + 10),
+                limits: (MAX_MSGS, MAX_BYTES),
+            }
+        }
         5 => {
             // both limits exhausted; messages are freed, taken again, then bytes are freed: at no
             // moment is there capacity, until the last step frees a message ("patient" script: the
@@ -328,7 +340,7 @@ fn run_trial_spawned(script: &Script, rng: &mut Rng, jitter: bool, free: bool) -
         // a third of the trials: no jitter at all, so that the mutators' calls cross each other
         let spins: Vec<u64> = ops.iter().map(|_| if jitter && !tight { rng.below(300) } else { 0 }).collect();
         let gate = Arc::clone(&spin_gate);
-        let patient = script.muts.len() == 1 && script.muts[0].len() == 4;
+        let patient = script.muts.len() == 1 && script.muts[0].len() >= 4;
         let states2 = states.clone();
         mh.push(std::thread::spawn(move || {
             go.wait();
@@ -447,7 +459,7 @@ fn main() {
                     std::process::exit(1);
                 }
                 (None, Some(i)) => println!("FLOW INCONCLUSIVE {}", i),
-                _ => println!("FLOW ok script={} waiters={} parked={} polls={:?}", k % 6, script.waiters, o.parked, o.polls),
+                _ => println!("FLOW ok script={} waiters={} parked={} polls={:?}", k % 7, script.waiters, o.parked, o.polls),
             }
         }
         "native" => {
@@ -462,7 +474,7 @@ fn main() {
             let mut inconclusive = 0u64;
             let mut samples: Vec<serde_json::Value> = vec![];
             for t in 0..trials {
-                let kind = rng.below(6);
+                let kind = rng.below(7);
                 let script = make_script(&mut rng, kind);
                 let free = rng.below(2) == 0;
                 let o = run_trial_spawned(&script, &mut rng, true, free);
@@ -490,7 +502,7 @@ fn main() {
                 "episodes": trials, "nontrivial": parked_trials, "keys": keys.iter().map(|k| { let mut h: u64 = 0xcbf29ce484222325; for b in k.bytes() { h ^= b as u64; h = h.wrapping_mul(0x100000001b3); } h }).collect::<Vec<u64>>(),
                 "violations": violations, "inconclusive": if inconclusive > 0 { serde_json::json!({"flow-native: waiter neither finished nor parked within 20 s": inconclusive}) } else { serde_json::json!({}) },
                 "counters": {"trials_with_parked_waiter": parked_trials}, "minmax": {}, "samples": samples, "hooks": {}, "panics": [],
-                "rule": "native threads: per trial 1-3 waiter threads drive wait_for_available_space() with a hand-written executor while 1-2 mutator threads run a script of inc/dec (6 script kinds: single releasing dec, two mutators freeing one dimension each, capacity churn, two mutators with add/remove pairs, two symmetric crossing decrements from a state above both limits, and a patient script in which messages are freed, taken again and bytes freed so that capacity never exists until the last step) with random spin jitter between the steps; in half of the trials the mutators are serialised by the trace wrapper (exact trace, strong spurious-resume oracle), in the other half they overlap freely (crossing inc/dec calls; logical-clock log, lower-bound spurious-resume oracle). Non-trivial: a waiter parked at least once before returning. Distinct: (script kind, waiters, script lengths, sorted poll-count vector).",
+                "rule": "native threads: per trial 1-3 waiter threads drive wait_for_available_space() with a hand-written executor while 1-2 mutator threads run a script of inc/dec (7 script kinds: releases that overtake their acquisitions while the byte limit holds the waiters; single releasing dec, two mutators freeing one dimension each, capacity churn, two mutators with add/remove pairs, two symmetric crossing decrements from a state above both limits, and a patient script in which messages are freed, taken again and bytes freed so that capacity never exists until the last step) with random spin jitter between the steps; in half of the trials the mutators are serialised by the trace wrapper (exact trace, strong spurious-resume oracle), in the other half they overlap freely (crossing inc/dec calls; logical-clock log, lower-bound spurious-resume oracle). Non-trivial: a waiter parked at least once before returning. Distinct: (script kind, waiters, script lengths, sorted poll-count vector).",
                 "exhaustive_plan": false, "truncated": false, "wall_s": t0.elapsed().as_secs_f64()
             });
             let s = serde_json::to_string(&j).unwrap();
